@@ -94,20 +94,6 @@ CLAIMED = {
         "technique": "Rocq proof (refinement of the declarative 'constants of type T' by the literal walk; sort/permutation; assoc-list round trips) + differential execution of generated packages vs model",
         "coq_targets": ["Properties/C04.vo", "Corr/EnumCorr.vo"],
     },
-    "C10": {
-        "text": "Theorems over every accepted result list, every status in Z, every body, every behaviour of encoding/json and every failing call: a generated method exists exactly for the accepted signatures; it returns a nil error iff 200 <= status < 300 and the body decodes (io.EOF counting as the zero value), the decoded value (its address for pointer results) next to the response; 400..499 -> `client error <status>: <body>`, >= 500 -> `server error …`, everything else -> `not supported error <status>` (texts proved to determine status and body); JoinPath/Marshal/NewRequest/transport failures are returned unchanged with every other slot nil; the response accompanies every return after it was received; the result is nil on every error path; arity and nil-ability hold outside two refuted input classes (open findings K_rest_array_result, K_rest_multi_name_result). The model (cook_results transcribed literally, the template rendered to abstract Go statements and executed) is tied to internal/restclient by generating ~60 clients per run with the real shoot, compiling them and driving every method against scripted real and fabricated responses and 13 kinds of failures, compared inside Coq (thorough: every status 200..599 x 4 body classes x all shapes).",
-        "design_ref": "DESIGN.md section 8, C10; section 13",
-        "note": COMMON_NOTE + "encoding/json is a model parameter instantiated by measurement; net/http is not modelled (cases start from what http.Client.Do returned; statuses < 200 and > 999 only through fabricated responses); the response body's Close is compared but not part of the property.",
-        "technique": "Rocq proof (refinement of a declarative spec by the literal cook_results + emitted-statement interpreter, case analysis over Z) + differential run of generated clients (real shoot, go build, reflection driver, httptest + fabricated transports) vs model",
-        "coq_targets": ["Properties/C10.vo", "Corr/RestHandleCorr.vo"],
-    },
-    "C06": {
-        "text": "Theorems over all directives (token lists with any number of placeholders, alias lists), all parameter lists over {context, scalar, pointer scalar, struct/pointer struct with arbitrary field lists, map}, all argument values, all iteration orders of the three Go maps involved and all instances of the standard-library functions: inside decidable guards (well-formed directive, distinct names, at most one struct/map/context, arguments of the declared kinds without `{` in path texts and without nil pointer-to-struct on GET/DELETE) the generator model accepts the method and the generated method sends exactly the declaratively specified single request — directive verb, path with every placeholder replaced by the alias-resolved argument joined to the base URL, query parameters with url.Values.Set semantics (nil pointers omitted, map last), JSON body of the struct argument on POST/PUT/PATCH, per-verb default headers overridden by the headers= directive in key order, the caller's context — or the same error; methods are analysed independently. Nine open findings are refuted by witness or replayed. Tied to internal/restclient by running the real shoot on generated interface packages, compiling the clients and calling every method against a recording server (compared inside Coq with the model and with the declarative spec), plus differential runs of the directive parsers (verifprobe) and of the stdlib instances.",
-        "design_ref": "DESIGN.md section 8, C06; section 13",
-        "note": COMMON_NOTE + "RE2 and text/template are not modelled (the six regexes are executed literally by a backtracking matcher validated differentially; the template's meaning is hand-written); url.JoinPath, fmt %v, encoding/json enter as parameters; path arguments with a percent sign, `{` in path arguments, nil pointer-to-struct on GET/DELETE, body verbs without struct, *map, two maps, duplicate alias targets and structs of another file are open findings outside the guards.",
-        "technique": "Rocq refinement proof (generator model + template semantics ⊑ declarative request) by induction over parameter, field, token and write lists + differential run of generated clients, directive parsers and stdlib instances vs the model",
-        "coq_targets": ["Properties/C06.vo", "Corr/RestCorr.vo"],
-    },
     "C02": {
         "text": "Machine-checked (Rocq) over all struct packages of the grammar, all flags, all argument values: shoot's flatten is the depth-first occurrence list with pairwise shadow marking and refines Go's selector rule (an entry is unshadowed iff `resolve` returns its path); NewT(args) stores argument i exactly at the path Go resolves the parameter's field name to, every other leaf holds its def= default else zero, excluded fields are zero, embedded pointers are allocated; parameters are the unshadowed leaves (restricted to new-marked ones when any is marked), in declaration order depth-first, with distinct names; generics carry the struct's type parameters; bounded depth terminates, a self-embedding struct never does. Guarded by a decidable input guard that excludes the classes of 7 open findings, each refuted by a witness theorem. Tied to /repo on every run by differential execution of the built binary, go/types and an in-package oracle on ~185 generated structs (quick), compared inside Coq.",
         "design_ref": "DESIGN.md section 8, C02; section 13",
@@ -177,6 +163,20 @@ CLAIMED = {
         "note": COMMON_NOTE + "encoding/json is a Section parameter (one law) and is observed, not modelled; values are compared through their raw JSON text; explicit tags with options / `-` and colliding member names are outside the guard.",
         "technique": "Rocq proof (filter characterisation of makeJson, refinement to Go's selector rule, round trip as a run of assignments on non-overlapping leaf paths with encoding/json as Section variables) + L1 probe + L2 differential execution of json.Marshal/Unmarshal on generated code vs model",
         "coq_targets": ["Properties/C11.vo", "Corr/CtorJsonCorr.vo", "Corr/CtorDirectiveCorr.vo", "Corr/TransferCorr.vo"],
+    },
+    "C10": {
+        "text": "Theorems over every result list, every status in Z, every body, every behaviour of encoding/json and every failing call: a generated method exists exactly for the accepted value lists (result names irrelevant); given json's answer for the body, it returns a nil error iff 200 <= status < 300 and Decode returned nil or io.EOF, with the decoded value (its address for pointer results) next to the response; 400..499 -> `client error <status>: <body>`, 500..599 -> `server error …`, <200 and 300..399 -> `not supported error <status>` (texts proved to determine status and body); JoinPath/Marshal/NewRequest/transport failures are returned unchanged with every other slot nil; every response that Do returns with a nil error accompanies the return; the result is nil on every error path; the number of returned values is the declared one. One refuted input class (open finding K_rest_redirect_response_dropped, golden-locked): when Do returns a response together with an error (failed redirect chain) the response is dropped — proved for every accepted signature and replayed on every run. The model (cook.go's result checks transcribed literally, the template rendered to abstract Go statements and executed) is tied to internal/restclient by generating ~60 clients per run with the real shoot, compiling them and driving every method against scripted real and fabricated responses, followed redirects and 13 kinds of failures, compared inside Coq (thorough: every status 200..599 x 4 body classes x all shapes).",
+        "design_ref": "DESIGN.md section 8, C10; section 13",
+        "note": COMMON_NOTE + "encoding/json is a model parameter: 'empty body -> zero value', 'malformed / wrong-typed body -> error' are measured per case, the theorems are conditional on json's answer. net/http is not modelled (cases start from what http.Client.Do returned; statuses < 200 and > 999 only through fabricated responses). Statuses >= 600 are reported as server errors by the code although the text says 'any other status' (outside the quantifier; stated as its own theorem). The response body's Close is compared but not part of the property.",
+        "technique": "unchanged.",
+        "coq_targets": ["Properties/C10.vo", "Corr/RestHandleCorr.vo"],
+    },
+    "C06": {
+        "text": "Theorems over all directives (token lists with any number of placeholders, alias lists), all parameter lists over {context, scalar, pointer scalar, struct/pointer struct with arbitrary field lists, map}, all argument values, all iteration orders of the three Go maps involved and all instances of the standard-library functions (fmt %v, url.JoinPath, json.Marshal, the base URL's query — uninterpreted): inside decidable guards (well-formed directive; distinct, named parameters; at most one struct/map/context; placeholders bound to non-pointer scalars; arguments of the declared kinds whose path texts are single non-empty non-dot segments without `/`, `%`, `{`; no nil pointer-to-struct on GET/DELETE) the generator model accepts the method and the generated method equals the declarative request: directive verb, path with every placeholder replaced by the alias-resolved argument passed with the base URL to join_path, query parameters with url.Values.Set semantics (nil pointers omitted, map last), JSON body of the struct argument on POST/PUT/PATCH, per-verb default headers overridden by the headers= directive in key order, the caller's context — or the same error. For comments in the canonical rendering (`shoot: Verb(path)` + optional `shoot: alias={k:v},…`) the link between comment text and structured directive is itself a theorem about the model's regex matcher. 'Exactly one request' and 'methods are analysed independently' hold by construction of the model and are established for the code only by the differential run. Open findings (K_rest_path_percent = missing url.PathEscape, K_rest_subst_rescan, K_rest_nil_struct_ptr, K_rest_ptr_map, K_rest_alias_dup) are refuted by witness and replayed; nine repaired findings are replayed as regressions. Tied to internal/restclient by running the real shoot on generated interface packages (sources re-read with go/parser for the model's input), compiling the clients and calling every method against a recording server (compared inside Coq with the model and with the declarative spec), plus differential runs of the directive parsers (verifprobe) and of the stdlib instances.",
+        "design_ref": "DESIGN.md section 8, C06; section 13",
+        "note": COMMON_NOTE + "RE2 and text/template are not modelled (the six regexes are executed literally by a backtracking matcher validated differentially; the template's meaning is hand-written); parameter classification, struct-field extraction and the default header table are the model's own definitions on both sides of the refinement, tied to the code by the sampled run only; url.JoinPath, fmt %v, encoding/json enter as parameters (reference instances compared with the real functions on every run); the brace guard on path arguments is sufficient, not necessary; outside the claim: embedded struct fields, float scalars, two struct parameters, qualified named non-struct types on POST/PUT/PATCH (bound as the body on purpose), escaped base URLs.",
+        "technique": "Rocq refinement proof (generator model + template semantics ⊑ declarative request; parse-of-render for the canonical directive form) by induction over parameter, field, token, entry and write lists and over symbolic strings + differential run of generated clients, directive parsers and stdlib instances vs the model",
+        "coq_targets": ["Properties/C06.vo", "Corr/RestCorr.vo"],
     },
 }
 
